@@ -37,6 +37,18 @@
 (* (not the writer's own guard) - the owner-specific reading is the        *)
 (* property WalWriteByHolder, checked in MC_DBLocks_lead_walowner.cfg.     *)
 (*                                                                         *)
+(* Closing a file descriptor (FUSE FLUSH of the handle): "DbFlush" is       *)
+(* DatabaseHandle.Flush -> DB.UnlockDatabase, "ShmFlush" = CloseSHM(c) is   *)
+(* SHMHandle.Flush -> DB.UnlockSHM.  Each releases exactly the locks of ITS *)
+(* file: closing the -shm descriptor (SQLite does that in the middle of     *)
+(* PRAGMA journal_mode=DELETE, while it still holds EXCLUSIVE on the        *)
+(* database file) keeps the owner's PENDING/SHARED/RESERVED.  The ghost     *)
+(* variable "lost" records locks that LiteFS's table dropped although the   *)
+(* connection neither unlocked them nor closed their file (as coded: never; *)
+(* FlushAll = TRUE is the relevance mutation "UnlockSHM releases the whole   *)
+(* guard set").  The C11 clauses are stated on what a connection HOLDS      *)
+(* (Bel = lock table + lost), not on what LiteFS remembers.                 *)
+(*                                                                         *)
 (* Binding (harness/checks/c11): with EmitEdges TLC prints one STATE line  *)
 (* per distinct state with ALL outgoing edges (actor, request, predicted   *)
 (* result, actor's guards afterwards); the harness rebuilds paths by a     *)
@@ -61,6 +73,7 @@ CONSTANTS
   TxNoLock,     \* TRUE = model the /tx handler as coded: an internal page write that takes no lock (known defect)
   WalGuard,     \* TRUE = as coded (WAL writes need some WRITE holder); FALSE = relevance mutation
   WalOwnerTest, \* FALSE = as coded (the test looks at the WRITE mutex); TRUE = candidate repair (the writer's own guard)
+  FlushAll,     \* FALSE = as coded (closing the -shm handle releases the SHM-file locks only); TRUE = relevance mutation (it releases the owner's whole guard set)
   Exclude,      \* request names removed from the clients' vocabulary (bounds the quick configurations)
   Gated,        \* TRUE: interleave other processes only where the real TryAcquireWriteLock can be paused (replay cfgs)
   EmitEdges     \* TRUE: print one STATE line per distinct state with all its outgoing edges
@@ -86,10 +99,12 @@ WriteSet == Conflict
 VARIABLES g,     \* g[o][l] \in {"U","S","X"}: guard state of owner o on lock l
           ipc,   \* per internal writer: [st, k, gate]
           spc,   \* snapshot sequence: 0 = idle, k = index of the next step of SnapProg (beyond it: releasing)
+          lost,  \* lost[c][l] \in {"U","S","X"}: ghost - what client c still holds on l (it neither unlocked l nor closed
+                 \* l's file) although the lock table g no longer says so; "U" = nothing lost (as coded: always)
           last   \* observable result of the last action (output only, hidden by VIEW)
 
-vars == <<g, ipc, spc, last>>
-view == <<g, ipc, spc>>
+vars == <<g, lost, ipc, spc, last>>
+view == <<g, lost, ipc, spc>>
 
 (* ------------------------------------------------------------------ *)
 (* one lock                                                            *)
@@ -238,7 +253,9 @@ OthersAtGate(pc, w) == \A v \in Internals \ {w} : pc[v].gate
 ClientEff(gg, c, r) ==
   CASE r.t = "W" -> TryW(gg, c, r.ls)
     [] r.t = "R" -> TryR(gg, c, r.ls)
-    [] r.t \in {"U", "F"} -> [g |-> Unl(gg, c, r.ls), ok |-> TRUE]
+    [] r.t = "U" -> [g |-> Unl(gg, c, r.ls), ok |-> TRUE]
+    [] r.t = "F" -> \* Flush of a handle: UnlockDatabase / UnlockSHM release the locks of that file (r.ls) only
+                    [g |-> Unl(gg, c, IF FlushAll /\ r.n = "ShmFlush" THEN LockSeq ELSE r.ls), ok |-> TRUE]
     [] r.t = "A" -> \* writeWALHeader / writeWALFrameHeader / writeWALFrameData: db.writeLock.State() test
                     [g |-> gg, ok |-> (~WalGuard) \/ (IF WalOwnerTest THEN gg[c]["WRITE"] = "X" ELSE MS(gg, "WRITE") = "X")]
 ClientEn(gg, pc, c, r) == (Gated => AtGate(pc)) /\ Allowed(gg[c], r)
@@ -331,16 +348,30 @@ EmitInv == EmitEdges => PrintT("STATE " \o ToJson(StateRec))
 (* ------------------------------------------------------------------ *)
 Init ==
   /\ g = [o \in Owners |-> [l \in Locks |-> "U"]]
+  /\ lost = [c \in Clients |-> [l \in Locks |-> "U"]]
   /\ ipc = [w \in Internals |-> [st |-> "idle", k |-> 0, gate |-> TRUE]]
   /\ spc = 0
   /\ last = [op |-> "Init", o |-> "-", n |-> "-", l |-> "-", res |-> TRUE]
 
 Out(op, o, n, l, res) == last' = [op |-> op, o |-> o, n |-> n, l |-> l, res |-> res]
 
+\* ghost bookkeeping of a client request: a lock named by the request is the connection's business again
+\* (it asked for it, released it, or closed its file); a lock NOT named by the request that disappears from
+\* the lock table is still held by the connection
+LostEff(gg, ll, c, r, g1) ==
+  [ll EXCEPT ![c] = [l \in Locks |->
+      IF l \in Range(r.ls) THEN "U"
+      ELSE IF gg[c][l] # "U" /\ g1[c][l] = "U" THEN gg[c][l]
+      ELSE ll[c][l]]]
+
 Client(c, r) ==
   /\ ClientEn(g, ipc, c, r)
-  /\ LET e == ClientEff(g, c, r) IN g' = e.g /\ Out("Req", c, r.n, "-", e.ok)
+  /\ LET e == ClientEff(g, c, r) IN g' = e.g /\ lost' = LostEff(g, lost, c, r, e.g) /\ Out("Req", c, r.n, "-", e.ok)
   /\ UNCHANGED <<ipc, spc>>
+
+\* closing the -shm descriptor (fuse SHMHandle.Flush -> DB.UnlockSHM): the request "ShmFlush" of the vocabulary
+ShmFlushReq == CHOOSE r \in ShmReqs : r.n = "ShmFlush"
+CloseSHM(c) == Client(c, ShmFlushReq)
 
 IStep(w) ==
   /\ IStepEn(ipc, w)
@@ -348,7 +379,7 @@ IStep(w) ==
        /\ g' = e.g
        /\ ipc' = [ipc EXCEPT ![w] = e.pc]
        /\ Out("IStep", w, e.op, e.l, e.ok)
-  /\ UNCHANGED spc
+  /\ UNCHANGED <<spc, lost>>
 
 IRel(w) ==
   /\ IRelEn(g, ipc, w)
@@ -356,24 +387,24 @@ IRel(w) ==
        /\ g' = e.g
        /\ ipc' = [ipc EXCEPT ![w] = e.pc]
        /\ Out("IRel", w, e.op, e.l, TRUE)
-  /\ UNCHANGED spc
+  /\ UNCHANGED <<spc, lost>>
 
 \* a page write / truncate of the database file inside the section
 IWrite(w) ==
   /\ IWriteEn(ipc, w)
-  /\ UNCHANGED <<g, ipc, spc>>
+  /\ UNCHANGED <<g, lost, ipc, spc>>
   /\ Out("IWrite", w, "-", "-", TRUE)
 
 \* http/server.go handlePostTx as coded: WriteLTXFileAt + ApplyLTXNoLock with no lock taken (and no halt-lock test)
 TxWrite ==
   /\ TxWriteEn(ipc)
-  /\ UNCHANGED <<g, ipc, spc>>
+  /\ UNCHANGED <<g, lost, ipc, spc>>
   /\ Out("TxWrite", "tx", "-", "-", TRUE)
 
 SnapStep ==
   /\ SnapEn(g, ipc, spc)
   /\ LET e == SnapEff(g, spc) IN g' = e.g /\ spc' = e.sp /\ Out("SnapStep", Snap, e.op, e.l, TRUE)
-  /\ UNCHANGED ipc
+  /\ UNCHANGED <<ipc, lost>>
 
 Next == \/ \E c \in Clients : \E r \in Reqs : Client(c, r)
         \/ \E w \in Internals : IStep(w) \/ IRel(w) \/ IWrite(w)
@@ -391,6 +422,7 @@ ASSUME PrintT("PROG " \o ToJson([mode |-> Mode, prog |-> Prog, snap |-> SnapProg
 
 TypeOK ==
   /\ g \in [Owners -> [Locks -> {"U", "S", "X"}]]
+  /\ lost \in [Clients -> [Locks -> {"U", "S", "X"}]]
   /\ \A w \in Internals : ipc[w].st \in {"idle", "acq", "held", "rel"} /\ ipc[w].gate \in BOOLEAN
 
 \* per lock: nobody, readers, or exactly one writer (RWMutex.tla OneOfThree, twelve times)
@@ -405,11 +437,23 @@ WriteSetHeld ==
      /\ \A l \in WriteSet : g[w][l] = "X"
      /\ (Mode = "wal" => g[w]["SHARED"] = "S" /\ g[w]["DMS"] = "S")
 
+\* what owner o HOLDS on lock l: for a connection, a lock it was granted and neither unlocked nor gave up by
+\* closing that file - whether or not LiteFS's lock table still remembers it
+Bel(o, l) == IF o \in Clients /\ lost[o][l] # "U" THEN lost[o][l] ELSE g[o][l]
+
+\* LiteFS's lock table never forgets a lock a connection still holds (closing the -shm descriptor gives up the
+\* SHM-file locks and none of the database-file locks; closing the database descriptor the converse)
+NothingLost == \A c \in Clients : \A l \in Locks : lost[c][l] = "U"
+
 \* "it never runs while any application connection holds a conflicting read or write lock"
-\* (stated for every other owner: clients, other internal writers, the snapshot reader)
+\* (stated for every other owner: clients, other internal writers, the snapshot reader).  In WAL mode a
+\* connection holding SHARED exclusively (SQLite's EXCLUSIVE lock: PRAGMA journal_mode=DELETE, exclusive locking
+\* mode) reads and writes the database file without the WAL locks: it conflicts as well.
 Exclusion ==
   \A w \in Internals : InSection(w) =>
-     \A o \in Owners \ {w} : \A l \in Conflict : g[o][l] = "U"
+     \A o \in Owners \ {w} :
+        /\ \A l \in Conflict : Bel(o, l) = "U"
+        /\ Mode = "wal" => Bel(o, "SHARED") # "X"
 
 \* "no application can begin reading or writing until it finishes": every read- or write-lock
 \* attempt on a conflicting lock would be refused
@@ -427,7 +471,8 @@ RefusedWhileWriting ==
 \* write (IWrite, TxWrite) happens inside a section
 EnterOnlyWhenFree ==
   [][ \A w \in Internals : (ipc'[w].st = "held" /\ ipc[w].st # "held") =>
-        \A c \in Clients : \A l \in Conflict : g[c][l] = "U" /\ g'[c][l] = "U" ]_vars
+        \A c \in Clients : /\ \A l \in Conflict : Bel(c, l) = "U" /\ g'[c][l] = "U"
+                            /\ Mode = "wal" => Bel(c, "SHARED") # "X" ]_vars
 
 SomeSectionOK(gg, pc) ==
   \E w \in Internals :
